@@ -36,8 +36,7 @@ def replay(path):
         import abstract_common as AC
         C = consumer.Consumer(vc.scratch(PROP + 'r'))
         if p.get('kind') == 'enum-literals':
-            import native
-            ok, desc, _ = AC.confirm_enum_literals(native.ReplayTool(vc.scratch(PROP + 'e')), p['model'])
+            ok, desc, _ = AC.confirm_enum_literals(C, p['model'])
         else:
             ok, desc, _ = AC.confirm(C, p['model'], other_variant=p['model'].get('fragments_other_variant', False))
         print(desc)
